@@ -40,7 +40,7 @@ var zzCornerRx = []string{"", "0", "auto", "AUTO", "-1", "1e3", "65536", "184467
 // configured controller; HandshakeInfo.Tx is the rate installed; the request
 // declares the client's receive limit.
 //
-//verif:harness kind=api replay=interp unwind=64 bound=MaxTx:any-uint64,serverRx:3-symbolic-digits+corner-strings,MaxRx∈{0,65536,2^40}
+//verif:harness kind=api replay=interp unwind=64 bound=MaxTx:any-uint64,serverRx:3(quick)/6(thorough)-symbolic-digits+corner-strings,MaxRx∈{0,65536,2^40}
 func ZZ_C10_ClientRate() {
 	maxTx := verifUint64("maxTx", 0, 1<<64-1)
 	maxRx := []uint64{0, 65536, 1 << 40}[verifChoice("maxRx", 3)]
@@ -51,7 +51,11 @@ func ZZ_C10_ClientRate() {
 	case 0:
 		rxStr = zzCornerRx[verifChoice("corner", len(zzCornerRx))]
 	case 1:
-		n := 1 + verifChoice("digits", 3)
+		nd := 3
+		if verifThorough() {
+			nd = 6
+		}
+		n := 1 + verifChoice("digits", nd)
 		b := verifBytes("rxDigits", n)
 		for i := range b {
 			verifAssume(b[i] >= '0' && b[i] <= '9')
